@@ -448,5 +448,30 @@ Section Lang3.
         + intros w. rewrite !L_gen. simpl. eapply sim_inv_lang; eauto.
         + eapply sim_inv_wf; eauto.
     Qed.
+    (** non-terminal level: everything generated in G is generated in the TERM / BIN result *)
+    Lemma term_forward (G' : gram) : cnf_term teqb neqb t2n fresh G = Ok G' ->
+      forall s w, gen P s w -> gen (prods G') s w.
+    Proof.
+      unfold cnf_term. intros H.
+      assert (Hinit : tinv (fun A => [Nt A]) (mkTS [] nts0 [])).
+      { split; [|intros ? ? []]. simpl.
+        split; try (intros ? []); try (intros ? ? []); auto using incl_refl. intros A _. reflexivity. }
+      pose proof (term_prods_spec P (fun A => [Nt A]) (mkTS [] nts0 []) (incl_refl _) Hinit) as Hs.
+      destruct (term_prods teqb neqb t2n fresh (prods G) (mkTS [] (nonterms G) [])) as [s'| |] eqn:E; simpl in H; try discriminate.
+      fold P nts0 in E. rewrite E in Hs. simpl in Hs. destruct Hs as (σ' & _ & _ & Himp).
+      inversion H; subst G'. simpl. apply (proj1 (gen_forward P (ts_prods s') Himp)).
+    Qed.
+
+    Lemma bin_forward (G' : gram) : cnf_bin teqb neqb fresh G = Ok G' ->
+      forall s w, gen P s w -> gen (prods G') s w.
+    Proof.
+      unfold cnf_bin. intros H.
+      assert (Hinit : sim_inv (fun A => [Nt A]) nts0 []).
+      { split; try (intros ? []); try (intros ? ? []); auto using incl_refl. intros A _. reflexivity. }
+      pose proof (bin_prods_spec P (fun A => [Nt A]) nts0 [] (incl_refl _) Hinit) as Hs.
+      destruct (bin_prods teqb neqb fresh (prods G) (nonterms G, [])) as [st'| |] eqn:E; simpl in H; try discriminate.
+      fold P nts0 in E. rewrite E in Hs. simpl in Hs. destruct Hs as (σ' & _ & _ & Himp).
+      inversion H; subst G'. simpl. apply (proj1 (gen_forward P (snd st') Himp)).
+    Qed.
   End WithG.
 End Lang3.
